@@ -144,7 +144,8 @@ class Gen:
                 D.features.add("float_constant")
             else:
                 a, b = rng.choice(ints), rng.choice(ints)
-                form = rng.choice(["{a} + {b}", "{a} * 2", "({a} + 1) * 2 - 1", "{a} + {b} - 1", "{a} * {b}", "{a}"])
+                form = rng.choice(["{a} + {b}", "{a} * 2", "({a} + 1) * 2 - 1", "{a} + {b} - 1", "{a} * {b}", "{a}", "{a} / 2", "({a} * 2 + 1) / 2",
+                                   "{a} / {b}", "{a} - {b} * 3", "{a} * 4 / 4"])
                 expr = form.format(a=a, b=b)
                 v = eval(expr, {}, {k: D.constants[k] for k in (a, b)})
                 sections["constants"].append(f"  {n}: {expr}")
